@@ -33,6 +33,10 @@ type IAMCache struct {
 	service  IAMService
 	iamcache *icache
 	cancel   context.CancelFunc
+	// mu serializes account changes with the fetch-and-cache of a
+	// lookup miss, so that a lookup in flight cannot re-insert an
+	// account that is deleted or changed in the meantime
+	mu sync.Mutex
 }
 
 var _ IAMService = &IAMCache{}
@@ -136,6 +140,9 @@ func NewCache(service IAMService, expireTime, cleanupInterval time.Duration) *IA
 
 // CreateAccount send create to IAM service and creates an account cache entry
 func (c *IAMCache) CreateAccount(account Account) error {
+	c.mu.Lock()
+	defer c.mu.Unlock()
+
 	err := c.service.CreateAccount(account)
 	if err != nil {
 		return err
@@ -165,6 +172,9 @@ func (c *IAMCache) GetUserAccount(access string) (Account, error) {
 		return acct, nil
 	}
 
+	c.mu.Lock()
+	defer c.mu.Unlock()
+
 	a, err := c.service.GetUserAccount(access)
 	if err != nil {
 		return Account{}, err
@@ -177,6 +187,9 @@ func (c *IAMCache) GetUserAccount(access string) (Account, error) {
 
 // DeleteUserAccount deletes account from IAM service and cache
 func (c *IAMCache) DeleteUserAccount(access string) error {
+	c.mu.Lock()
+	defer c.mu.Unlock()
+
 	err := c.service.DeleteUserAccount(access)
 	if err != nil {
 		return err
@@ -187,6 +200,9 @@ func (c *IAMCache) DeleteUserAccount(access string) error {
 }
 
 func (c *IAMCache) UpdateUserAccount(access string, props MutableProps) error {
+	c.mu.Lock()
+	defer c.mu.Unlock()
+
 	err := c.service.UpdateUserAccount(access, props)
 	if err != nil {
 		return err
